@@ -22,8 +22,11 @@ Import ListNotations.
 
 Record cfg := {
   nprocs : nat;                 (* registered span processors *)
-  prog : nat -> option op       (* the call issued by each thread id (None: the id is unused) *)
+  prog : nat -> option op;      (* the call issued by each thread id (None: the id is unused) *)
+  lims : limits                 (* SpanLimits: attribute / event / link count limits (None = unlimited) *)
 }.
+
+Definition no_limits : limits := {| lim_attr := None; lim_event := None; lim_link := None |}.
 
 Inductive pc :=
 | Idle                          (* call not yet issued *)
@@ -50,13 +53,15 @@ Record state := {
   children : nat;               (* childSpanCount *)
   pcs : nat -> pc;
   applied : list nat;           (* ghost: mutators that completed their critical section while recording *)
+  drops : dropped;              (* droppedAttributes, events.droppedCount, links.droppedCount *)
   kids : list nat;              (* ghost: addChild calls that incremented the count *)
   hist : list event             (* ghost: chronological history *)
 }.
 
 Definition init : state :=
   {| mu := None; endt := 0; parts := []; name := None; status := None; children := 0;
-     pcs := fun _ => Idle; applied := []; kids := []; hist := [] |}.
+     pcs := fun _ => Idle; applied := [];
+     drops := {| d_attr := 0; d_event := 0; d_link := 0 |}; kids := []; hist := [] |}.
 
 (** What snapshot() copies. *)
 Definition mk_snap (s : state) : snap :=
@@ -65,28 +70,70 @@ Definition mk_snap (s : state) : snap :=
 
 Definition set_pc (s : state) (t : nat) (p : pc) : state :=
   {| mu := mu s; endt := endt s; parts := parts s; name := name s; status := status s;
-     children := children s; pcs := upd (pcs s) t p; applied := applied s; kids := kids s; hist := hist s |}.
+     children := children s; pcs := upd (pcs s) t p; applied := applied s; drops := drops s; kids := kids s; hist := hist s |}.
 Definition set_mu (s : state) (m : option nat) : state :=
   {| mu := m; endt := endt s; parts := parts s; name := name s; status := status s;
-     children := children s; pcs := pcs s; applied := applied s; kids := kids s; hist := hist s |}.
+     children := children s; pcs := pcs s; applied := applied s; drops := drops s; kids := kids s; hist := hist s |}.
 Definition emit (s : state) (e : event) : state :=
   {| mu := mu s; endt := endt s; parts := parts s; name := name s; status := status s;
-     children := children s; pcs := pcs s; applied := applied s; kids := kids s; hist := hist s ++ [e] |}.
+     children := children s; pcs := pcs s; applied := applied s; drops := drops s; kids := kids s; hist := hist s ++ [e] |}.
 Definition set_endt (s : state) (et : nat) : state :=
   {| mu := mu s; endt := et; parts := parts s; name := name s; status := status s;
-     children := children s; pcs := pcs s; applied := applied s; kids := kids s; hist := hist s |}.
-Definition add_part (s : state) (x : nat * nat) : state :=
-  {| mu := mu s; endt := endt s; parts := parts s ++ [x]; name := name s; status := status s;
-     children := children s; pcs := pcs s; applied := applied s; kids := kids s; hist := hist s |}.
+     children := children s; pcs := pcs s; applied := applied s; drops := drops s; kids := kids s; hist := hist s |}.
+(** Applying one part of a mutation under the span limits.
+    SetAttributes (addOverCapAttrs / the limit == 0 branch): a new attribute is kept while fewer than
+    [limit] are held, otherwise counted in droppedAttributes.  AddEvent / AddLink / RecordError
+    (evictedQueue.add): capacity 0 only counts; at capacity the oldest element is evicted and counted,
+    then the new one is appended.  The kind of an existing part is the kind of the call that made it. *)
+Definition is_kind (c : cfg) (k : mkind) (x : nat * nat) : bool :=
+  match prog c (fst x) with Some (OMut k' _) => mkind_eqb k k' | _ => false end.
+
+Fixpoint remove_first_p (p : nat * nat -> bool) (l : list (nat * nat)) : list (nat * nat) :=
+  match l with
+  | [] => []
+  | x :: r => if p x then r else x :: remove_first_p p r
+  end.
+
+Definition bump (d : dropped) (k : mkind) : dropped :=
+  match k with
+  | KAttr => {| d_attr := S (d_attr d); d_event := d_event d; d_link := d_link d |}
+  | KEvent => {| d_attr := d_attr d; d_event := S (d_event d); d_link := d_link d |}
+  | KLink => {| d_attr := d_attr d; d_event := d_event d; d_link := S (d_link d) |}
+  | _ => d
+  end.
+
+Definition new_parts (c : cfg) (s : state) (k : mkind) (x : nat * nat) : list (nat * nat) :=
+  match lim_of (lims c) k with
+  | None => parts s ++ [x]
+  | Some L =>
+      let cnt := countb (is_kind c k) (parts s) in
+      match k with
+      | KAttr => if cnt <? L then parts s ++ [x] else parts s
+      | _ => if L =? 0 then parts s
+             else if cnt <? L then parts s ++ [x]
+             else remove_first_p (is_kind c k) (parts s) ++ [x]
+      end
+  end.
+
+Definition new_drops (c : cfg) (s : state) (k : mkind) : dropped :=
+  match lim_of (lims c) k with
+  | None => drops s
+  | Some L => if countb (is_kind c k) (parts s) <? L then drops s else bump (drops s) k
+  end.
+
+Definition apply_part (c : cfg) (s : state) (k : mkind) (x : nat * nat) : state :=
+  {| mu := mu s; endt := endt s; parts := new_parts c s k x; name := name s; status := status s;
+     children := children s; pcs := pcs s; applied := applied s; drops := new_drops c s k; kids := kids s; hist := hist s |}.
+
 (** End of a mutator's critical section: register write (SetName/SetStatus) and ghost. *)
 Definition finish_mut (s : state) (k : mkind) (t : nat) : state :=
   {| mu := mu s; endt := endt s; parts := parts s;
      name := match k with KName => Some t | _ => name s end;
      status := match k with KStatus => Some t | _ => status s end;
-     children := children s; pcs := pcs s; applied := applied s ++ [t]; kids := kids s; hist := hist s |}.
+     children := children s; pcs := pcs s; applied := applied s ++ [t]; drops := drops s; kids := kids s; hist := hist s |}.
 Definition inc_child (s : state) (t : nat) : state :=
   {| mu := mu s; endt := endt s; parts := parts s; name := name s; status := status s;
-     children := S (children s); pcs := pcs s; applied := applied s; kids := kids s ++ [t]; hist := hist s |}.
+     children := S (children s); pcs := pcs s; applied := applied s; drops := drops s; kids := kids s ++ [t]; hist := hist s |}.
 
 Definition recording (s : state) : bool := endt s =? 0.
 
@@ -129,7 +176,7 @@ Definition step (c : cfg) (s : state) (t : nat) : option state :=
         match o with
         | OMut k _ =>
             if i <? nparts o
-            then Some (set_pc (add_part s (t, i)) t (MApply (S i)))
+            then Some (set_pc (apply_part c s k (t, i)) t (MApply (S i)))
             else Some (set_pc (set_mu (finish_mut s k t) None) t (Ret false))
         | _ => None
         end
@@ -147,8 +194,8 @@ Definition run_c (c : cfg) : state -> list nat -> option state := run (step c).
 
 (** ** Sequential programs (the deterministic fragment of the correspondence run):
     call [i] is [nth i ops]; each call runs to completion before the next starts. *)
-Definition seq_cfg (P : nat) (ops : list op) : cfg :=
-  {| nprocs := P; prog := fun t => nth_error ops t |}.
+Definition seq_cfg (P : nat) (l : limits) (ops : list op) : cfg :=
+  {| nprocs := P; prog := fun t => nth_error ops t; lims := l |}.
 
 Fixpoint run_thread (c : cfg) (fuel : nat) (s : state) (t : nat) : state :=
   match fuel with
@@ -158,8 +205,8 @@ Fixpoint run_thread (c : cfg) (fuel : nat) (s : state) (t : nat) : state :=
 
 Definition seq_fuel (P : nat) (o : op) : nat := 12 + P + nparts o.
 
-Definition run_seq (P : nat) (ops : list op) : state :=
-  fold_left (fun s t => run_thread (seq_cfg P ops) (seq_fuel P (nth t ops OEnd)) s t)
+Definition run_seq (P : nat) (l : limits) (ops : list op) : state :=
+  fold_left (fun s t => run_thread (seq_cfg P l ops) (seq_fuel P (nth t ops OEnd)) s t)
             (seq 0 (length ops)) init.
 
 (** ** The protocol before fix 845ec5d, reduced to what matters: End released the
